@@ -4,3 +4,5 @@ import Dtr.Props.C04
 #print axioms Dtr.C04_outs_after_ctor
 #print axioms Dtr.C04_outs_invariant
 #print axioms Dtr.C04_missing_output_ctor
+#print axioms Dtr.C04_outs_behind_error
+#print axioms Dtr.C04_outs_behind_eval_error
